@@ -157,6 +157,9 @@ impl Scheduler {
         // Ensure workers are spawned for this processor (lazy initialization).
         self.inner.ensure_workers_spawned(processor_id);
 
+        #[cfg(folo_verif)]
+        crate::verif::sim_point("spawn:after-ensure");
+
         let state = self.inner.registry.get_or_init(processor_id);
 
         // Rent a oneshot channel for the result.
@@ -197,6 +200,9 @@ impl Scheduler {
         // Record the spawn for metrics.
         state.record_task_spawned();
 
+        #[cfg(folo_verif)]
+        crate::verif::sim_point("spawn:before-notify");
+
         // Notify one worker that work is available.
         state.wake_event.notify(1);
 
@@ -217,6 +223,9 @@ impl Scheduler {
 
         // Ensure workers are spawned for this processor (lazy initialization).
         self.inner.ensure_workers_spawned(processor_id);
+
+        #[cfg(folo_verif)]
+        crate::verif::sim_point("spawn:after-ensure");
 
         let state = self.inner.registry.get_or_init(processor_id);
 
@@ -254,6 +263,9 @@ impl Scheduler {
 
         // Record the spawn for metrics.
         state.record_task_spawned();
+
+        #[cfg(folo_verif)]
+        crate::verif::sim_point("spawn:before-notify");
 
         // Notify one worker that work is available.
         state.wake_event.notify(1);
